@@ -629,6 +629,48 @@ async fn shrink(batches: &[RecordBatch], ver: Ver, rng: &mut Rng) -> (Value, Opt
         cur = vec![b];
     }
     let why = roundtrip_failure(&cur, ver, rng).await;
+    if std::env::var("C11_DUMP").is_ok() {
+        for b in &cur {
+            for c in b.columns() {
+                let d = c.to_data();
+                println!(
+                    "SHRUNK column {:?} len={} offset={} nulls={:?} buffers={:?} children={:?}",
+                    c.data_type(),
+                    d.len(),
+                    d.offset(),
+                    d.nulls().map(|n| (n.len(), n.offset(), n.null_count())),
+                    d.buffers().iter().map(|b| b.len()).collect::<Vec<_>>(),
+                    d.child_data().iter().map(|c| (c.len(), c.offset(), c.null_count())).collect::<Vec<_>>()
+                );
+                if let Some(l) = c.as_any().downcast_ref::<arrow_array::ListArray>() {
+                    println!("   list offsets {:?} values.len={} values={:?}", l.value_offsets(), l.values().len(), l.values());
+                }
+            }
+        }
+        // which read shape fails?
+        let schema = cur[0].schema();
+        let reader = RecordBatchIterator::new(cur.clone().into_iter().map(Ok), schema);
+        let n = SHRINK_N.fetch_add(1, std::sync::atomic::Ordering::SeqCst);
+        let p = WriteParams { data_storage_version: Some(ver.lance()), ..Default::default() };
+        if let Ok(ds) = guard(Dataset::write(reader, format!("memory://c11-dump-{n}").as_str(), Some(p))).await {
+            for bs in [None, Some(1usize), Some(2), Some(3), Some(16), Some(100), Some(8192)] {
+                for ordered in [false, true] {
+                    let r = guard(async {
+                        let mut s = ds.scan();
+                        if let Some(b) = bs {
+                            s.batch_size(b);
+                        }
+                        s.scan_in_order(ordered);
+                        let v: Vec<RecordBatch> = s.try_into_stream().await?.try_collect().await?;
+                        Ok(v.iter().map(|b| b.num_rows()).sum::<usize>())
+                    })
+                    .await;
+                    println!("SHRUNK read batch_size={bs:?} ordered={ordered}: {:?}", r.map_err(|e| e.brief().chars().take(160).collect::<String>()));
+                }
+            }
+            println!("SHRUNK count_rows: {:?}", guard(ds.count_rows(None)).await.map_err(|e| e.brief()));
+        }
+    }
     let rows: Vec<String> = cur
         .iter()
         .flat_map(batch_to_rows)
@@ -671,11 +713,38 @@ fn data_features(batches: &[RecordBatch]) -> Vec<&'static str> {
     struct F {
         list_first_item_null: bool,
         fsl_all_items_null: bool,
+        hidden_null_items: bool,
+    }
+    /// some child slot that no *valid* list refers to (garbage behind a NULL list, or values the
+    /// offsets never reference, e.g. after `RecordBatch::slice`) is NULL
+    fn hidden_nulls<O: arrow_array::OffsetSizeTrait>(l: &arrow_array::GenericListArray<O>) -> bool {
+        fn has_null(c: &Cell) -> bool {
+            match c {
+                Cell::Null => true,
+                Cell::List(v) => v.iter().any(has_null),
+                Cell::Struct(v) => v.iter().any(|(_, x)| has_null(x)),
+                _ => false,
+            }
+        }
+        let child = l.values();
+        let mut visible = vec![false; child.len()];
+        let o = l.value_offsets();
+        for i in 0..l.len() {
+            if l.is_valid(i) {
+                for p in o[i].as_usize()..o[i + 1].as_usize() {
+                    visible[p] = true;
+                }
+            }
+        }
+        (0..child.len()).any(|p| !visible[p] && has_null(&vmon::table::cell_at(child.as_ref(), p)))
     }
     fn walk(a: &dyn Array, f: &mut F) {
         match a.data_type() {
             DataType::List(_) => {
                 let l = a.as_list::<i32>();
+                if hidden_nulls(l) {
+                    f.hidden_null_items = true;
+                }
                 let o = l.value_offsets();
                 for i in 0..l.len() {
                     if o[i + 1] > o[i] && l.values().is_null(o[i] as usize) {
@@ -686,6 +755,9 @@ fn data_features(batches: &[RecordBatch]) -> Vec<&'static str> {
             }
             DataType::LargeList(_) => {
                 let l = a.as_list::<i64>();
+                if hidden_nulls(l) {
+                    f.hidden_null_items = true;
+                }
                 let o = l.value_offsets();
                 for i in 0..l.len() {
                     if o[i + 1] > o[i] && l.values().is_null(o[i] as usize) {
@@ -709,11 +781,60 @@ fn data_features(batches: &[RecordBatch]) -> Vec<&'static str> {
             _ => {}
         }
     }
+    /// number of leaf slots visible through valid lists (a NULL leaf item counts, a NULL / empty
+    /// list contributes nothing); None if the type holds no variable-size list
+    fn visible_leaves(dt: &DataType, c: &Cell) -> Option<usize> {
+        match dt {
+            DataType::List(f) | DataType::LargeList(f) => Some(match c {
+                Cell::List(v) => v
+                    .iter()
+                    .map(|x| visible_leaves(f.data_type(), x).unwrap_or(1))
+                    .sum(),
+                _ => 0,
+            }),
+            DataType::Struct(fs) => {
+                let mut total = None;
+                for (i, fld) in fs.iter().enumerate() {
+                    let child = match c {
+                        Cell::Struct(v) => v.get(i).map(|x| x.1.clone()).unwrap_or(Cell::Null),
+                        _ => Cell::Null,
+                    };
+                    if let Some(n) = visible_leaves(fld.data_type(), &child) {
+                        total = Some(total.unwrap_or(0) + n);
+                    }
+                }
+                total
+            }
+            _ => None,
+        }
+    }
     let mut f = F::default();
+    let mut zero_item_list_column = false;
+    if let Some(b0) = batches.first() {
+        for (j, fld) in b0.schema().fields().iter().enumerate() {
+            let mut total: Option<usize> = None;
+            let mut rows = 0;
+            for b in batches {
+                for i in 0..b.num_rows() {
+                    rows += 1;
+                    if let Some(n) = visible_leaves(fld.data_type(), &vmon::table::cell_at(b.column(j).as_ref(), i)) {
+                        total = Some(total.unwrap_or(0) + n);
+                    }
+                }
+            }
+            if rows > 0 && total == Some(0) {
+                zero_item_list_column = true;
+            }
+        }
+    }
     for b in batches {
         for c in b.columns() {
             walk(c.as_ref(), &mut f);
         }
+    }
+    if zero_item_list_column {
+        // dominant class: e_codec's C27 "zero-item page" (rows but no visible leaf item)
+        return vec!["list-column-without-visible-leaf-items"];
     }
     let mut out = vec![];
     if f.list_first_item_null {
@@ -721,6 +842,9 @@ fn data_features(batches: &[RecordBatch]) -> Vec<&'static str> {
     }
     if f.fsl_all_items_null {
         out.push("fsl-batch-with-all-items-null");
+    }
+    if f.hidden_null_items {
+        out.push("null-items-hidden-behind-null-list");
     }
     out
 }
@@ -1033,6 +1157,11 @@ async fn run_case(cx: &Ctx<'_>, seed: u64, idx: u64, selftest: bool) -> (u64, u6
                 let feats = data_features(&table_batches);
                 let sig = match class {
                     Some(c) => format!("accepted-write-unreadable:{c}:{}", eff_ver.name()),
+                    // not reproducible outside the original file layout: the panic text of
+                    // repdef.rs:1254 identifies the item-less page class
+                    None if e.msg().contains("Expected repetition level but data didn't contain repetition") => {
+                        format!("accepted-write-unreadable:list-column-without-visible-leaf-items:{}", eff_ver.name())
+                    }
                     None => format!(
                         "accepted-write-unreadable:unshrunk:{}:{}:{}",
                         e.class(),
